@@ -118,6 +118,9 @@ func runC15(t *testing.T, sc *world.Scenario) *check.Result {
 		}
 		co := runChild(&childSpec{Scenario: isc, WorldDir: worldDir, OutDir: outDir, Args: args}, 240*time.Second)
 		accumulate(res, co)
+		if stuckViolation(res, "C15", co) {
+			return res
+		}
 		if co.Harness != "" {
 			res.Harness = fmt.Sprintf("step %d (%s): %s\n%s", step, op, co.Harness, tailStr(co.Stderr, 1200))
 			return res
